@@ -328,6 +328,19 @@ Proof.
   - intros H; inversion H; auto.
 Qed.
 
+(* an accepted table object is usable afterwards, whatever the store held before *)
+Lemma recv_table_ok_usable d t tc d' : recv_table d t tc = ROk d' -> table_ok d' t tc.
+Proof.
+  intros E. pose proof (recv_obj_ext d (OTable t tc)) as X. simpl in X. rewrite E in X. simpl in X.
+  pose proof (recv_obj_ok d (OTable t tc) d' E) as (_ & H2 & _ & H4 & H5 & H6).
+  pose proof (recv_table_ok_checked _ _ _ _ E) as [Hpk Hb].
+  split; [split; auto; intros b x Hin; destruct (Hb _ _ Hin) as (? & ? & ?); auto|].
+  split; [|rewrite H4, H5; simpl; auto].
+  intros b x Hin. destruct (Hb _ _ Hin) as (A & _ & _). split.
+  - destruct X; auto.
+  - apply H6. right. apply in_map_iff. exists (b, x); auto.
+Qed.
+
 Lemma tableswf_recv_obj d o : TablesWF d -> TablesWF (rstate (recv_obj d o)).
 Proof.
   intros HW. pose proof (recv_obj_ext d o) as X.
@@ -505,6 +518,19 @@ Proof.
 Qed.
 
 End Presence.
+
+(* every table object of an accepted sequence is usable at the end: blocks, rebuilt block
+   indices, table index and profile are there - with NO assumption on the initial store *)
+Theorem received_usable d objs d' :
+  recv_all d objs = ROk d' ->
+  forall l1 t tc l2, objs = l1 ++ OTable t tc :: l2 -> table_ok d' t tc.
+Proof.
+  intros Hok l1 t tc l2 E. subst objs. rewrite recv_all_app in Hok.
+  destruct (recv_all d l1) as [d1|d1] eqn:E1; [|discriminate].
+  simpl in Hok. destruct (Transfer.recv_table bshape d1 t tc) as [d2|d2] eqn:E2; [|discriminate].
+  pose proof (recv_all_ext d2 l2) as X. rewrite Hok in X. simpl in X.
+  eapply table_ok_ext; eauto using recv_table_ok_usable.
+Qed.
 
 (* every accepted table had all its blocks present when it arrived *)
 Lemma ok_table_blocks_present d objs d' :
